@@ -735,7 +735,8 @@ def run(chk, tier, replay):
             r.shape = shape_of(ev)
             n0 = len(ev)
             ev = with_file_event(ev, scns[i], meta, base_file.get(i))
-            if meta.get("file") not in (None, "absent", "readerr") and meta.get("file") != base_file.get(i):
+            all_ok = all(status_of(e) == "ok" for e in ev if e["e"] in STEP_KIND)
+            if all_ok and meta.get("file") not in (None, "absent", "readerr") and meta.get("file") != base_file.get(i):
                 files_differ[i] += 1
             if i in UNJUDGED_DATA:
                 ev = [e for e in ev if e["e"] in ("End", "Fault")]
@@ -764,7 +765,7 @@ def run(chk, tier, replay):
         if r.toks is not None and i not in UNJUDGED_DATA:
             shapes_seen[r.shape] += 1
     outside = sorted(s for s in shapes_seen if s not in allowed)
-    chk.part("files", differing_from_fault_free_file=dict(files_differ))
+    chk.part("files", all_calls_ok_but_bytes_differ_from_fault_free_file=dict(files_differ))
     by_file = collections.Counter(x.split("@")[1].split(":")[0] for x in sites)
     chk.part("fault_points", scenarios=per_scn, total=len(meta_of), distinct_allocation_sites=len(sites),
              sites_by_file=dict(by_file), sites=sorted(sites))
